@@ -30,7 +30,8 @@ SPD(d) ==
                      Q(<< <<4, 2, -2>>, <<2, 5, 1>>, <<-2, 1, 6>> >>, 2),
                      Q(<< <<2, 0, 1>>, <<0, 1, 0>>, <<1, 0, 3>> >>, 3) >>
       [] d = 4 -> << Q(<< <<2, 1, 0, 0>>, <<1, 2, 1, 0>>, <<0, 1, 2, 1>>, <<0, 0, 1, 2>> >>, 1),
-                     Q(<< <<3, -1, 1, 0>>, <<-1, 2, 0, 1>>, <<1, 0, 2, 0>>, <<0, 1, 0, 1>> >>, 2) >>
+                     Q(<< <<3, -1, 1, 0>>, <<-1, 2, 0, 1>>, <<1, 0, 2, 0>>, <<0, 1, 0, 2>> >>, 2),
+                     Q(<< <<4, 1, 0, -1>>, <<1, 3, 1, 0>>, <<0, 1, 2, 0>>, <<-1, 0, 0, 1>> >>, 3) >>
 
 \* diagonal positive matrices
 DPD(d) ==
@@ -43,20 +44,22 @@ DPD(d) ==
                      Q(<< <<1, 0, 0>>, <<0, 3, 0>>, <<0, 0, 5>> >>, 2),
                      Q(<< <<4, 0, 0>>, <<0, 1, 0>>, <<0, 0, 2>> >>, 3),
                      Q(<< <<3, 0, 0>>, <<0, 2, 0>>, <<0, 0, 1>> >>, 1) >>
+      [] d = 4 -> << Q(<< <<2, 0, 0, 0>>, <<0, 1, 0, 0>>, <<0, 0, 3, 0>>, <<0, 0, 0, 5>> >>, 1),
+                     Q(<< <<1, 0, 0, 0>>, <<0, 3, 0, 0>>, <<0, 0, 5, 0>>, <<0, 0, 0, 2>> >>, 2) >>
 
 \* vectors
 VEC(d) ==
     CASE d = 1 -> << Q(<<1>>, 1), Q(<<-1>>, 2), Q(<<3>>, 2), Q(<<-2>>, 1) >>
       [] d = 2 -> << Q(<<1, -1>>, 1), Q(<<-1, 2>>, 2), Q(<<3, 1>>, 2), Q(<<0, -2>>, 1) >>
       [] d = 3 -> << Q(<<1, -1, 2>>, 1), Q(<<-1, 2, 1>>, 2), Q(<<3, 1, -2>>, 2), Q(<<0, -2, 1>>, 1) >>
-      [] d = 4 -> << Q(<<1, -1, 2, 0>>, 1), Q(<<-1, 2, 1, 1>>, 2) >>
+      [] d = 4 -> << Q(<<1, -1, 2, 0>>, 1), Q(<<-1, 2, 1, 1>>, 2), Q(<<3, 1, -2, 1>>, 2) >>
 
 \* a second, different family of vectors (rank-one directions, data points)
 VEC2(d) ==
     CASE d = 1 -> << Q(<<2>>, 1), Q(<<-1>>, 1), Q(<<1>>, 2), Q(<<3>>, 4) >>
       [] d = 2 -> << Q(<<1, 2>>, 1), Q(<<-1, 1>>, 1), Q(<<1, -3>>, 2), Q(<<2, 1>>, 3) >>
       [] d = 3 -> << Q(<<1, 2, -1>>, 1), Q(<<-1, 1, 1>>, 1), Q(<<1, -3, 2>>, 2), Q(<<2, 1, 0>>, 3) >>
-      [] d = 4 -> << Q(<<1, 2, -1, 1>>, 1), Q(<<-1, 1, 1, 0>>, 1) >>
+      [] d = 4 -> << Q(<<1, 2, -1, 1>>, 1), Q(<<-1, 1, 1, 0>>, 1), Q(<<1, -3, 2, 2>>, 2) >>
 
 \* scalars: log-constants and positive rank-one weights
 LNB == << Q(-1, 1), Q(1, 2), Q(0, 1), Q(-3, 4) >>
